@@ -59,7 +59,11 @@ Verdict(ev) ==
     CASE ev.e = "Line"    -> LineVerdict(ev)
       [] ev.e = "Circle"  -> CircleVerdict(ev)
       [] ev.e = "Ellipse" -> EllipseVerdict(ev)
-      [] ev.e \in {"Applied", "End"} -> {}
+      [] ev.e = "Applied" -> {}
+      \* shapes applied one after the other in one process: each stays inside its view and draws no more pixels than it has points
+      [] ev.e = "SeqApplied" -> IF ev.outside = 0 /\ (ev.count < 0 \/ ev.drawn <= ev.count) /\ applied # -1 THEN {}
+                                ELSE {V("P_ApplyInsideView", "None", "sequence:" \o ev.what, [arg |-> <<ev.arg, ev.arg2>>, outside |-> ev.outside, drawn |-> ev.drawn, count |-> ev.count])}
+      [] ev.e = "End" -> IF applied = -1 THEN {V("P_ApplyInsideView", "None", "sequence", "fault while applying a sequence of shapes")} ELSE {}
       [] ev.e = "Fault"   -> {}            \* folded into the next event as applied = -1
       [] OTHER -> {V("UnknownEvent", "None", ev.e, l)}
 Drift(ev) == IF ev.e = "Line" THEN LineDrift(ev) ELSE {}
@@ -69,7 +73,7 @@ Step == /\ l <= NTr
         /\ bad' = MergeBad(bad, l, Verdict(Tr[l]))
         /\ drift' = MergeBad(drift, l, Drift(Tr[l]))
         /\ applied' = IF Tr[l].e = "Applied" THEN Tr[l].outside ELSE IF Tr[l].e = "Fault" THEN -1 ELSE 0
-        /\ nchk' = nchk + (IF Tr[l].e \in {"Line", "Circle", "Ellipse"} THEN 1 ELSE 0)
+        /\ nchk' = nchk + (IF Tr[l].e \in {"Line", "Circle", "Ellipse", "SeqApplied"} THEN 1 ELSE 0)
         /\ l' = l + 1
 Fin  == /\ l = NTr + 1 /\ WriteOut(bad, drift, nchk) /\ l' = l + 1 /\ UNCHANGED <<bad, drift, nchk, applied>>
 Next == Step \/ Fin
